@@ -389,6 +389,21 @@ Definition np_cast (dt : dtype) (adv : bool) (raw : rawval) : option (res (list 
   | RFloatArr sh flat => match cast_floats dt flat with Some l => Some (Ok (sh, l)) | None => None end
   end.
 
+(* one more dtype rule of ndarray.__setitem__ (observed on NumPy 2.5): an ELEMENT assignment
+   x[i, j] = value (one integer per axis) refuses an ndarray value with ndim > 0 for the integer
+   dtypes, but for the boolean dtype it takes the truth value of any array holding exactly one
+   element (all extents 1) *)
+Definition elem_key (sh : shape) (k : key) : bool :=
+  match k with
+  | KBasic es => forallb (fun e => match e with KInt _ => true | _ => false end) es
+                 && Nat.eqb (length es) (length sh)
+  | KIndex ix => np_scalar sh ix
+  | _ => false
+  end.
+Definition dt_is_bool (dt : dtype) : bool := match dt with DBool => true | _ => false end.
+Definition np_value (dt : dtype) (sh : shape) (k : key) (v : list Z * list Z) : list Z * list Z :=
+  if dt_is_bool dt && elem_key sh k && forallb (Z.eqb 1) (fst v) then ([], snd v) else v.
+
 (* an array value given by its shape and its elements in row-major order *)
 Definition arr_of_flat (sh flat : list Z) : arr Z :=
   mkArr sh (fun ix => nth (Z.to_nat (ravel sh ix)) flat 0).
